@@ -1,3 +1,66 @@
-import SqliteDissect.Model.History
+/-
+C03 — per-commit added / updated / deleted rows are complete and replay to SQLite's states
+(the dictionary algebra of VersionParserIterator.next).
+-/
+import SqliteDissect.Proofs.HistoryDefs
+import SqliteDissect.Proofs.History
+
 namespace SqliteDissect.Properties.C03
+open SqliteDissect SqliteDissect.Model
+
+-- `DictOK`, `stateOf`, `applyCommit` live in Proofs/HistoryDefs.lean (same names, this namespace)
+
+/-- Replaying the report of one commit on the previous table state gives exactly the new table
+state, for every rowid — provided equal digests mean equal cells between the two versions (the
+digest covers every stored byte of the cell, overflow included). -/
+theorem replay_step (cur cells : List (List Nat × Cell)) (hc : DictOK cur) (hn : DictOK cells)
+    (hd : ∀ e1 ∈ cur, ∀ e2 ∈ cells, e1.1 = e2.1 → e1.2.rowid = e2.2.rowid) (r : Int) :
+    applyCommit (stateOf cur) (diffCells true cur cells).1 (diffCells true cur cells).2.1
+        (diffCells true cur cells).2.2 r
+      = (match stateOf cells r with
+         | some c => if cur.any (fun e => e.1 = c.digest) then stateOf cur r else some c
+         | none => none) := by
+  exact Proofs.History.replay_step cur cells hc hn hd r
+
+/-- every cell whose stored bytes are new in this commit is reported exactly once (as added or
+as updated), nothing else is, and nothing already current is reported again -/
+theorem reported_exactly_new (cur cells : List (List Nat × Cell)) (hn : DictOK cells) (c : Cell) :
+    (c ∈ (diffCells true cur cells).1 ∨ c ∈ (diffCells true cur cells).2.1) ↔
+      (∃ e ∈ cells, e.2 = c ∧ ¬ cur.any (fun x => x.1 = e.1)) := by
+  exact Proofs.History.reported_exactly_new cur cells hn c
+
+theorem added_updated_disjoint (cur cells : List (List Nat × Cell)) (hn : DictOK cells) (c : Cell) :
+    ¬ (c ∈ (diffCells true cur cells).1 ∧ c ∈ (diffCells true cur cells).2.1) := by
+  exact Proofs.History.added_updated_disjoint cur cells hn c
+
+/-- new rowids are reported only as added, removed rowids only as deleted: a reported-added cell's
+rowid is carried by no vanished cell, a reported-deleted cell's rowid by no new cell, and an
+updated cell's rowid by both -/
+theorem classification (cur cells : List (List Nat × Cell)) :
+    let gone := cur.filter fun e => ¬ cells.any (·.1 = e.1)
+    let new := cells.filter fun e => ¬ cur.any (·.1 = e.1)
+    (∀ a ∈ (diffCells true cur cells).1, ¬ gone.any (fun g => g.2.rowid = a.rowid)) ∧
+    (∀ d ∈ (diffCells true cur cells).2.2, ¬ new.any (fun n => n.2.rowid = d.rowid)) ∧
+    (∀ u ∈ (diffCells true cur cells).2.1, gone.any (fun g => g.2.rowid = u.rowid) ∧ new.any (fun n => n.2 = u)) := by
+  exact Proofs.History.classification cur cells
+
+/-- reported-deleted cells are exactly the vanished cells whose rowid did not come back -/
+theorem deleted_spec (cur cells : List (List Nat × Cell)) (d : Cell) :
+    d ∈ (diffCells true cur cells).2.2 ↔
+      ∃ e ∈ cur, e.2 = d ∧ ¬ cells.any (fun x => x.1 = e.1) ∧
+        ¬ (cells.filter fun x => ¬ cur.any (·.1 = x.1)).any (fun n => n.2.rowid = d.rowid) := by
+  exact Proofs.History.deleted_spec cur cells d
+
+/-- an unchanged dictionary reports nothing -/
+theorem unchanged_reports_nothing (cells : List (List Nat × Cell)) (isTable : Bool) :
+    diffCells isTable cells cells = ([], [], []) := by
+  exact Proofs.History.unchanged_reports_nothing cells isTable
+
+/-- index b-trees: plain set difference by digest, no updates -/
+theorem index_diff (cur cells : List (List Nat × Cell)) :
+    diffCells false cur cells =
+      ((cells.filter fun e => ¬ cur.any (·.1 = e.1)).map (·.2), [],
+       (cur.filter fun e => ¬ cells.any (·.1 = e.1)).map (·.2)) := by
+  exact Proofs.History.index_diff cur cells
+
 end SqliteDissect.Properties.C03
